@@ -10,6 +10,9 @@ MONS = (('mc.monitors', 'ExceptionMonitor', dict(prop='C12')),
         ('mc.closing', 'AllCallbacksMonitor', dict(prop='C12', variants=('all',))))
 
 
+JM = (MONS[0], ('mc.monitors_c06', 'DurabilityMonitor', {}))
+
+
 def specs(tier):
     q = tier == 'quick'
     js = [
@@ -27,6 +30,12 @@ def specs(tier):
         J('forwarded3-boom:E1H1', 'forwarded', dict(n=3, methods=('boom',)), dict(E=1, H=1), dict(meth='boom')),
         J('forwarded-acked3-boom:S1H1', 'forwarded_acked', dict(n=3, methods=('boom',)), dict(S=1, H=1), dict(meth='boom')),
         J('steady2-nobatch:S2H1', 'steady', dict(n=2, methods=('boom', 'boom0'), batch=False), dict(S=2, H=1), dict(k=0)),
+        # restart that replays the raising command from the journal, with and without a dump file in front of it
+        # (kills are faults: the callbacks of a killed node are gone, so only the exception and replay oracles here)
+        J('j-steady2-boom:S2H1P1', 'steady', dict(n=2, methods=('boom',), journal='file'), dict(S=2, H=1, P=1), dict(k=1),
+          clauses=('C12', 'C02', 'C01', 'C04', 'C06'), extra_monitors=JM),
+        J('jd-steady2-boom:S1H1K1P1', 'steady', dict(n=2, methods=('boom',), journal='file+dump'), dict(S=1, H=1, K=1, P=1), dict(k=2),
+          clauses=('C12', 'C02', 'C01', 'C04', 'C06'), extra_monitors=JM),
     ]
     if not q:
         js += [J('steady3-boom-reelect:E1H1S1', 'steady', dict(n=3, methods=('boom',)), dict(E=1, H=1, S=1), dict(k=0)),
